@@ -12,12 +12,15 @@ Definition method_eqb (a b : method) : bool :=
   match a, b with PIT, PIT | MPS, MPS | SN, SN => true | _, _ => false end.
 
 (* what the code does; [fixed] is the repaired tree, [upstream] the pinned revision *)
+(* what export() does about the state it disturbed: nothing (pinned upstream) | puts the sampled coefficients
+   back and calls self.train(mode found on the wrapper) | puts back the flag of EVERY module (DNAS._preserve_state) *)
+Inductive restore := RNo | RMode | RAll.
 Record version := mkVer {
-  restore_state : bool;   (* export() restores training flags and sampled coefficients (DNAS._preserve_state) *)
+  restore_state : restore;
   fork_rng      : bool;   (* export() runs the conversion inside torch.random.fork_rng() *)
   summary_pure  : bool }. (* SuperNetCombiner.summary() does not call sample_alpha() *)
-Definition fixed := mkVer true true true.
-Definition upstream := mkVer false false false.
+Definition fixed := mkVer RAll true true.
+Definition upstream := mkVer RNo false false.
 
 (* static facts of the wrapped network *)
 Record config := mkCfg {
@@ -26,6 +29,9 @@ Record config := mkCfg {
   has_bn    : bool;    (* some BatchNorm updates running statistics in a training forward *)
   has_drop  : bool;    (* some Dropout draws from the global RNG in a training forward *)
   has_fixed : bool;    (* some non-searchable layer is costed when full_cost is on *)
+  bn_sub    : bool;    (* the BatchNorm modules belong to the sub-set S of modules whose flag is handled separately *)
+  drop_sub  : bool;    (* the Dropout modules belong to S *)
+  samp_sub  : bool;    (* the samplers (MPS quantizers / SuperNet combiners) belong to S *)
   full_cost : bool }.
 
 Inductive specid := SingleA | SingleB | DictAB.
@@ -44,17 +50,18 @@ Record state := mkSt {
   bv : Z;                (* version of the BatchNorm running statistics *)
   tr_wrap : bool;        (* wrapper.training *)
   tr_seed : bool;        (* wrapper.seed.training *)
-  tr_leaf : bool;        (* .training of the layers inside the seed *)
+  tr_leaf : bool;        (* .training of the modules inside the seed that are not in S *)
+  tr_sub : bool;         (* .training of the modules in S (user code may freeze / unfreeze them: module.eval()) *)
   th : theta;
   rng : Z;               (* position of torch's global random stream *)
   spec : specid;         (* current cost specification *)
   polluted : bool }.     (* some plain layer's __dict__ carries the shape keys written by a cost call *)
 
 (* the part of the state the property speaks about (everything but [polluted]) *)
-Definition visible (s : state) := (pv s, bv s, (tr_wrap s, tr_seed s, tr_leaf s), th s, rng s, spec s).
+Definition visible (s : state) := (pv s, bv s, (tr_wrap s, tr_seed s, tr_leaf s, tr_sub s), th s, rng s, spec s).
 
 Inductive oop := OExport | OExportNoBn | OSummary | OCost | OGetCost (n : string)
-               | OSetSpec (s : specid) | OForward | OTrainStep.
+               | OSetSpec (s : specid) | OForward | OTrainStep | OFlip.
 Definition is_observer (o : oop) : bool :=
   match o with OExport | OExportNoBn | OSummary | OCost | OGetCost _ => true | _ => false end.
 
@@ -64,7 +71,7 @@ Inductive obs :=
 | OSum (pv : Z)                                     (* summary computed from the parameters *)
 | OSumTheta (t : theta)                             (* summary that reports a freshly stored sample (upstream SuperNet) *)
 | OCostV (m : metric) (fc : bool) (t : theta) (pv : Z)
-| OOut (pv bv : Z) (t : theta) (train : bool) (r : Z)
+| OOut (pv bv : Z) (t : theta) (train sub : bool) (r : Z)
 | OOk
 | OErr.
 
@@ -81,38 +88,44 @@ Definition sample (c : config) (train : bool) (p r : Z) : theta * Z :=
            else (TEval p, r)
   | SN  => if train && gumbel c then (TGumbel p r, r + w_gumbel) else (TSoft p, r)
   end.
+Definition bn_flag (c : config) (s : state) := if bn_sub c then tr_sub s else tr_leaf s.
+Definition drop_flag (c : config) (s : state) := if drop_sub c then tr_sub s else tr_leaf s.
+Definition samp_flag (c : config) (s : state) := if samp_sub c then tr_sub s else tr_leaf s.
 Definition resample (c : config) (train : bool) (s : state) : theta * Z :=
   match meth c with PIT => (th s, rng s) | _ => sample c train (pv s) (rng s) end.
 
 Definition set_th_rng (s : state) (t : theta) (r : Z) : state :=
-  mkSt (pv s) (bv s) (tr_wrap s) (tr_seed s) (tr_leaf s) t r (spec s) (polluted s).
+  mkSt (pv s) (bv s) (tr_wrap s) (tr_seed s) (tr_leaf s) (tr_sub s) t r (spec s) (polluted s).
 
 (* forward of the wrapper = forward of the seed *)
 Definition forward (c : config) (s : state) : state * obs :=
-  let t := fst (resample c (tr_leaf s) s) in
-  let r1 := snd (resample c (tr_leaf s) s) in
-  let r2 := if tr_leaf s && has_drop c then r1 + w_drop else r1 in
-  let b2 := if tr_leaf s && has_bn c then bv s + 1 else bv s in
-  (mkSt (pv s) b2 (tr_wrap s) (tr_seed s) (tr_leaf s) t r2 (spec s) (polluted s),
-   OOut (pv s) (bv s) t (tr_leaf s) r1).
+  let t := fst (resample c (samp_flag c s) s) in
+  let r1 := snd (resample c (samp_flag c s) s) in
+  let r2 := if drop_flag c s && has_drop c then r1 + w_drop else r1 in
+  let b2 := if bn_flag c s && has_bn c then bv s + 1 else bv s in
+  (mkSt (pv s) b2 (tr_wrap s) (tr_seed s) (tr_leaf s) (tr_sub s) t r2 (spec s) (polluted s),
+   OOut (pv s) (bv s) t (tr_leaf s) (tr_sub s) r1).
 
 (* convert(seed, example, 'export'): trace(seed.eval()), ShapeProp forward, new layers *)
 Definition export (v : version) (c : config) (s : state) : state * obs :=
   let o := ONet (pv s) (bv s) in
   let builds := negb (method_eqb (meth c) SN) in
   let r_build := if builds && negb (fork_rng v) then w_build else 0 in
-  if restore_state v then
-    (set_th_rng s (th s) (rng s + r_build), o)
-  else
+  match restore_state v with
+  | RAll => (set_th_rng s (th s) (rng s + r_build), o)
+  | RMode =>                                  (* self.train(self.training): every module gets the wrapper's flag *)
+    (mkSt (pv s) (bv s) (tr_wrap s) (tr_wrap s) (tr_wrap s) (tr_wrap s) (th s) (rng s + r_build) (spec s) (polluted s), o)
+  | RNo =>
     let t := fst (resample c false s) in      (* eval-mode forward of shape propagation *)
     let r1 := snd (resample c false s) in
-    (mkSt (pv s) (bv s) (tr_wrap s) false false t (r1 + r_build) (spec s) (polluted s), o).
+    (mkSt (pv s) (bv s) (tr_wrap s) false false false t (r1 + r_build) (spec s) (polluted s), o)
+  end.
 
 Definition summary (v : version) (c : config) (s : state) : state * obs :=
   match meth c with
   | SN => if summary_pure v then (s, OSum (pv s))
-          else let t := fst (resample c (tr_leaf s) s) in
-               let r1 := snd (resample c (tr_leaf s) s) in (set_th_rng s t r1, OSumTheta t)
+          else let t := fst (resample c (samp_flag c s) s) in
+               let r1 := snd (resample c (samp_flag c s) s) in (set_th_rng s t r1, OSumTheta t)
   | _ => (s, OSum (pv s))
   end.
 
@@ -121,14 +134,14 @@ Definition summary (v : version) (c : config) (s : state) : state * obs :=
 Definition pollutes (c : config) : bool :=
   match meth c with SN => true | _ => full_cost c && has_fixed c end.
 Definition cost_of (c : config) (s : state) (m : metric) : state * obs :=
-  (mkSt (pv s) (bv s) (tr_wrap s) (tr_seed s) (tr_leaf s) (th s) (rng s) (spec s) (polluted s || pollutes c),
+  (mkSt (pv s) (bv s) (tr_wrap s) (tr_seed s) (tr_leaf s) (tr_sub s) (th s) (rng s) (spec s) (polluted s || pollutes c),
    OCostV m (full_cost c) (th s) (pv s)).
 
 (* one search step: forward, loss + cost regularizer (cost / get_cost "a"), backward, update of every trainable parameter *)
 Definition train_step (c : config) (s : state) : state * obs :=
   let s1 := fst (forward c s) in
   let o := snd (forward c s) in
-  (mkSt (pv s1 + 1) (bv s1) (tr_wrap s1) (tr_seed s1) (tr_leaf s1) (th s1) (rng s1) (spec s1) (polluted s1 || pollutes c), o).
+  (mkSt (pv s1 + 1) (bv s1) (tr_wrap s1) (tr_seed s1) (tr_leaf s1) (tr_sub s1) (th s1) (rng s1) (spec s1) (polluted s1 || pollutes c), o).
 
 Definition cost (c : config) (s : state) : state * obs :=
   match spec s with
@@ -144,7 +157,11 @@ Definition get_cost (c : config) (s : state) (n : string) : state * obs :=
   end.
 
 Definition set_spec (s : state) (sp : specid) : state * obs :=
-  (mkSt (pv s) (bv s) (tr_wrap s) (tr_seed s) (tr_leaf s) (th s) (rng s) sp (polluted s), OOk).
+  (mkSt (pv s) (bv s) (tr_wrap s) (tr_seed s) (tr_leaf s) (tr_sub s) (th s) (rng s) sp (polluted s), OOk).
+
+(* user code flips the flag of the modules in S (module.eval() / module.train() on BatchNorm, Dropout, samplers) *)
+Definition flip (s : state) : state * obs :=
+  (mkSt (pv s) (bv s) (tr_wrap s) (tr_seed s) (tr_leaf s) (negb (tr_sub s)) (th s) (rng s) (spec s) (polluted s), OOk).
 
 Definition step (v : version) (c : config) (s : state) (o : oop) : state * obs :=
   match o with
@@ -157,6 +174,7 @@ Definition step (v : version) (c : config) (s : state) (o : oop) : state * obs :
   | OSetSpec sp => set_spec s sp
   | OForward => forward c s
   | OTrainStep => train_step c s
+  | OFlip => flip s
   end.
 
 Fixpoint run (v : version) (c : config) (s : state) (ops : list oop) : state :=
@@ -176,15 +194,16 @@ Fixpoint trace_mut (v : version) (c : config) (s : state) (ops : list oop) : lis
 
 Definition erase (ops : list oop) : list oop := filter (fun o => negb (is_observer o)) ops.
 
-Definition init (train : bool) (sp : specid) : state := mkSt 0 0 train train train TInit 0 sp false.
+(* [mixed]: the modules in S start with the flag opposite to the wrapper's *)
+Definition init (train mixed : bool) (sp : specid) : state := mkSt 0 0 train train train (xorb train mixed) TInit 0 sp false.
 
 (* correspondence helper: observation and full abstract state after every step *)
 Fixpoint run_trace_from (v : version) (c : config) (s : state) (ops : list oop) : list (obs * state) :=
   match ops with [] => [] | o :: r => let '(s', ob) := step v c s o in (ob, s') :: run_trace_from v c s' r end.
-Definition run_trace (v : version) (c : config) (train : bool) (sp : specid) (ops : list oop) :=
-  run_trace_from v c (init train sp) ops.
+Definition run_trace (v : version) (c : config) (train mixed : bool) (sp : specid) (ops : list oop) :=
+  run_trace_from v c (init train mixed sp) ops.
 
 (* flat encodings for the harness *)
-Definition st_tuple (s : state) := (pv s, bv s, (tr_wrap s, tr_seed s, tr_leaf s), th s, rng s, spec s, polluted s).
-Definition run_trace_t (v : version) (c : config) (train : bool) (sp : specid) (ops : list oop) :=
-  map (fun p => (fst p, st_tuple (snd p))) (run_trace v c train sp ops).
+Definition st_tuple (s : state) := (pv s, bv s, (tr_wrap s, tr_seed s, tr_leaf s, tr_sub s), th s, rng s, spec s, polluted s).
+Definition run_trace_t (v : version) (c : config) (train mixed : bool) (sp : specid) (ops : list oop) :=
+  map (fun p => (fst p, st_tuple (snd p))) (run_trace v c train mixed sp ops).
